@@ -82,6 +82,8 @@ pub fn alphabet() -> Vec<Op> {
     a.push(Op::Lookup(SimLookup::HasClass(1)));
     a.push(Op::Lookup(SimLookup::HistoryLonger(0)));
     a.push(Op::Lookup(SimLookup::CounterAtLeast(1)));
+    a.push(Op::ParLookup(vec![SimLookup::All, SimLookup::HasClass(1)]));
+    a.push(Op::ParLookup(vec![SimLookup::GroupIs(0), SimLookup::All, SimLookup::CounterAtLeast(1)]));
     a.push(Op::FindUsable);
     a.push(Op::Clear);
     a.push(Op::Stats);
@@ -183,7 +185,7 @@ pub fn case(mut idx: u64, max_len: u32) -> StoreCase {
                     unresolved = 0;
                 }
             }
-            Op::Lookup(_) | Op::FindUsable if !qry => unresolved = 0,
+            Op::Lookup(_) | Op::ParLookup(_) | Op::FindUsable if !qry => unresolved = 0,
             _ => {}
         }
         ops.push(op);
